@@ -63,6 +63,11 @@ public:
   void restrictToConstraint(const ConstraintInterface& c);
 
   void discretize() {}
+
+  /**
+   * @brief A constant has one class: a request for another number of classes is ignored.
+   */
+  void setNumberOfCategories(size_t nbClasses) {}
 };
 } // end of namespace bpp.
 #endif // BPP_NUMERIC_PROB_CONSTANTDISTRIBUTION_H
